@@ -34,7 +34,6 @@ Theorem C12_tx_consistent : forall sender fee m s, LS.wf s -> LS.Consistent s ->
   let '(_, s') := apply_tx sender fee m s in LS.wf s' /\ LS.Consistent s'.
 Proof. exact LS.apply_tx_consistent. Qed.
 Theorem C12_slash_consistent : forall a chain percent already s s', LS.wf s -> LS.Consistent s -> LS.heights_ok s ->
-  (forall v, aget a (l_vals s) = Some v -> v_delegate v = false) ->
   slash_validator a chain percent already s = LOk s' -> LS.wf s' /\ LS.Consistent s'.
 Proof. exact LS.slash_consistent. Qed.
 
